@@ -24,11 +24,11 @@ ID = 'C09'
 TITLE = 'Each single-knee detector returns the interior optimum of its stated criterion'
 RULE = ('cases = (curve, detector configuration), full product below the bound; non-trivial = the criterion is not constant over the interior '
         'candidates (there is a real optimum to find)')
-ASSUMPTIONS = ['uts.thresholding.isodata is trusted as the dependency\'s definition of the ISODATA threshold',
+ASSUMPTIONS = ['curvature: an index is accepted if its criterion is maximal within the floating-point evaluation noise of the second derivative (16 eps max|y| / gap^2)', 'uts.thresholding.isodata is trusted as the dependency\'s definition of the ISODATA threshold',
                'an index whose criterion is within 1e-9 relative (+ noise floor) of the optimum is accepted (ties, rounding)',
                'Menger on exactly collinear curves (all curvatures zero) is undefined and skipped',
                'L-method: n >= 5; refinement limit in {4,5,10}']
-BOUNDS = {'quick': {'curvature/DFDT/Menger': 'A n=3..5 complete, A12 n=6, A1 n=7, C n<=5', 'L-method': 'A12 n=5, A1 n=6,7, Y013 n=8; 2 fits x 2 costs; 2 fits x 3 refinements x limit {4,5,10}; get_knee also with x+2^31 and x-2^28 on A1 n=6, G12Y013 n=5'},
+BOUNDS = {'quick': {'curvature/DFDT/Menger': 'A n=3..5 complete, A12 n=6, A1 n=7, C n<=5, G12Y013 n=5 re-embedded, trace windows (w=10,12)', 'L-method': 'A12 n=5, A1 n=6,7, Y013 n=8; 2 fits x 2 costs; 2 fits x 3 refinements x limit {4,5,10}; get_knee also with x+2^31 and x-2^28 on A1 n=6, G12Y013 n=5'},
           'thorough': {'curvature/DFDT/Menger': 'A n<=6 complete, A12 n=7, A1 n=8', 'L-method': 'A12 n=5,6, A1 n=7,8, Y013 n=9'}}
 TECHNIQUE = 'bounded-exhaustive enumeration of curves on the real detectors; optimum of each criterion recomputed in exact rational arithmetic; loops under a step monitor'
 LEVEL_TEXT = ('Model checking: every curve of the alphabets up to the bound through every detector option; the returned index must be an interior optimiser of an '
@@ -43,6 +43,10 @@ def units(tier, seed):
     else:
         basic = [('A', 3, 1), ('A', 4, 8), ('A', 5, 32), ('A', 6, 512), ('A12', 7, 256), ('A1', 8, 32), ('C', 5, 8), ('C', 6, 64)]
         lm = [('A12', 5, 16), ('A12', 6, 256), ('A1', 7, 32), ('A1', 8, 128), ('Y013', 9, 96)]
+    basic += [('Tweb0r', 10, 8), ('Tusr0s64', 12, 16)] if tier == 'quick' else [('Tweb0r', 10, 8), ('Tweb0r', 24, 8), ('Tusr0s64', 12, 16), ('Tusr0s64', 32, 16)]
+    lm += [('Tweb0r', 12, 8), ('Tusr0s64', 14, 16)] if tier == 'quick' else [('Tweb0r', 12, 8), ('Tweb0r', 24, 8), ('Tusr0s64', 14, 16), ('Tusr0s64', 30, 16)]
+    for p in curves.tiny_family(curves.G12Y013):
+        basic.append((p.name, 5, 16))
     b = curves.bonus(seed)
     basic.append((b.name, 4, 8))
     u = [('basic', prof, n, k, K) for prof, n, K in basic for k in range(K)]
@@ -211,6 +215,20 @@ def check_basic(det, xs, ys):
         if not (1 <= got <= n - 2):
             return False, [Failure(fn, 'not-interior', key, case, 'returned %d for n=%d' % (got, n), (n, 0))], False
         nontriv = len(set(crit.values())) > 1
+        if det == 'curvature':
+            # interval comparison: the float evaluation of |f''| at point i carries an absolute error of about
+            # 16 eps * max|y| / (min gap)^2, which passes through the factor (1+f'^2)^(-3/2) of THAT point.  An index is
+            # accepted if its criterion could be the maximum within that noise (huge y scales make flat
+            # stretches noisier than the true, tiny curvature of very steep stretches).
+            def noise(i):
+                ym = max(abs(float(ys[i - 1])), abs(float(ys[i])), abs(float(ys[i + 1])))
+                gm = min(float(xs[i]) - float(xs[i - 1]), float(xs[i + 1]) - float(xs[i]))
+                d1, _ = lagrange(xs, ys, i)
+                return 16 * lib.EPS * ym / (gm * gm) / (1.0 + float(d1) ** 2) ** 1.5
+            hi_got = math.sqrt(float(crit[got])) + noise(got)
+            lo_best = max(math.sqrt(float(c)) - noise(i) for i, c in crit.items())
+            if hi_got >= lo_best * (1 - 1e-9):
+                return nontriv, [], False
         if crit[got] < mx * (1 - Fraction(1, 10 ** 9)):
             best = [i for i, c in crit.items() if c == mx]
             return nontriv, [Failure(fn, 'not-the-maximiser', key, case, 'returned %d (criterion^2=%s); maximiser(s) %s (criterion^2=%s)' % (
